@@ -285,14 +285,14 @@ def _defs_world(w: _World, entity_type, integral_type, coef_offsets, num_coord_d
 
 @rule(
     "GEN-DEFS",
-    ["C05", "C02", "C08"],
+    ["C05", "C02", "C08", "C03"],
     "FFCXBackendDefinitions.coefficient / jacobian / spatial_coordinate (with coefficient_dof_access, table_access, "
     "symbols.entity) are interpreted from source on sample table data: the defined value must be "
     "sum_ic w[offset_of_coefficient + block_size*ic + begin] * T[perm][entity][q][ic], resp. "
     "sum_ic coordinate_dofs[3*ic + component (+ 3*num_nodes for '-')] * T[...], with every read inside the extents the "
     "UFCx contract gives w (sum of element dimensions, doubled on interior facets), coordinate_dofs (3 x nodes, doubled) "
     "and the tables",
-    min_instances=9,
+    min_instances=11,
 )
 def gen_defs(repo, res):
     w = _World(repo)
@@ -315,6 +315,8 @@ def gen_defs(repo, res):
         ("jacobian component, cell", "cell", "cell", fja, T("FE4", (1, 1, 1, 3), offset=1, ttype="piecewise"), None, None, (3, 3)),
         ("jacobian component, interior facet '-'", "facet", "interior_facet", fja, T("FE5", (1, 3, NQ, 3), offset=0), "-", None, (3, 3)),
         ("jacobian component, interior facet '+'", "facet", "interior_facet", fja, T("FE5", (1, 3, NQ, 3), offset=2), "+", None, (3, 3)),
+        ("jacobian component, interior facet '-', permuted table (non-affine geometry)", "facet", "interior_facet", fja, T("FE7", (2, 3, NQ, 3), offset=1, permuted=True), "-", None, (3, 3)),
+        ("spatial coordinate, interior facet '+', permuted table", "facet", "interior_facet", fsx, T("FE7", (2, 3, NQ, 3), offset=0, permuted=True), "+", None, (3, 3)),
         ("spatial coordinate, exterior facet", "facet", "exterior_facet", fsx, T("FE6", (1, 3, NQ, 3), offset=1), None, None, (3, 3)),
     ]
     for label, etype, itype, fn, td, restr, coef, dims in cases:
